@@ -333,4 +333,236 @@ theorem rowpath_sum_partial (k : Nat) (ws : List Int) :
     simp [AggState.result, Val.withInt, sumInts]
 
 
+/-! ### hash joins -/
+
+theorem flatMap_congr' {α β} (f g : α → List β) (L : List α) (h : ∀ l ∈ L, f l = g l) :
+    L.flatMap f = L.flatMap g := by
+  induction L with
+  | nil => rfl
+  | cons a as ih =>
+    simp only [List.flatMap_cons]
+    rw [h a (List.mem_cons_self), ih (fun l hl => h l (List.mem_cons_of_mem _ hl))]
+
+/-- nested loops commute, predicate on the pair. -/
+theorem cross_swap_perm2 {α β γ} (f : α → β → γ) (q : α → β → Bool) (L : List α) (R : List β) :
+    (R.flatMap (fun r => (L.filter (fun l => q l r)).map (fun l => f l r))).Perm
+      (L.flatMap (fun l => (R.filter (fun r => q l r)).map (f l))) := by
+  induction R with
+  | nil => simp
+  | cons r rs ih =>
+    simp only [List.flatMap_cons, List.filter_cons]
+    have h2 : (L.flatMap (fun l => (if q l r = true then r :: rs.filter (fun r => q l r) else rs.filter (fun r => q l r)).map (f l))) =
+        L.flatMap (fun l => (if q l r then [f l r] else []) ++ (rs.filter (fun r => q l r)).map (f l)) := by
+      congr 1; funext l; split <;> simp
+    rw [h2]
+    refine Perm.trans ?_ (flatMap_append_perm _ _ L).symm
+    refine Perm.append ?_ ih
+    apply Perm.of_eq
+    clear ih h2
+    induction L with
+    | nil => rfl
+    | cons a as ih2 =>
+      simp only [List.map_cons, List.filter_cons, List.flatMap_cons]
+      split <;> simp [ih2]
+
+/-! hash semi / anti join -/
+
+theorem contains_map_key (ks : List (Row → Val)) (R : List Row) (k : List Val) :
+    (R.map (keyOf ks)).contains k = R.any (fun r => k == keyOf ks r) := by
+  induction R with
+  | nil => rfl
+  | cons r rs ih => rw [List.map_cons, List.contains_cons, List.any_cons, ih]
+
+theorem holds_and3_true (x : Option Bool) : holds (and3 x (some true)) = holds x := by
+  cases x with
+  | none => rfl
+  | some b => cases b <;> rfl
+
+theorem equiOn_split (nL : Nat) (lk rk : List (Row → Val)) (l r : Row) (hl : l.length = nL) :
+    holds (equiOn nL lk rk (fun _ => some true) (l ++ r)) = holds (keysEq3 (keyOf lk l) (keyOf rk r)) := by
+  unfold equiOn keyOf
+  rw [holds_and3_true]
+  have h1 : (l ++ r).take nL = l := by rw [← hl]; simp
+  have h2 : (l ++ r).drop nL = r := by rw [← hl]; simp
+  rw [h1, h2]
+
+theorem any_congr' {α} (f g : α → Bool) (R : List α) (h : ∀ r ∈ R, f r = g r) : R.any f = R.any g := by
+  induction R with
+  | nil => rfl
+  | cons a as ih =>
+    rw [List.any_cons, List.any_cons, h a List.mem_cons_self, ih (fun r hr => h r (List.mem_cons_of_mem _ hr))]
+
+theorem hash_semi_key (lk rk : List (Row → Val)) (nL : Nat) (L R : List Row)
+    (hlen : ∀ l ∈ L, l.length = nL) (hk : KeysComparable lk rk L R) (l : Row) (hl : l ∈ L) :
+    (R.map (keyOf rk)).contains (keyOf lk l) =
+      !(matchesOf (equiOn nL lk rk (fun _ => some true)) l R).isEmpty := by
+  rw [contains_map_key, matches_isEmpty, Bool.not_not]
+  apply any_congr'
+  intro r hr
+  rw [equiOn_split nL lk rk l r (hlen l hl)]
+  exact hk l hl r hr
+
+/-- hash semi join = spec semi join (hence = nested-loop semi join) under KeysComparable. -/
+theorem hash_semi_eq_spec_partial (lk rk : List (Row → Val)) (nL : Nat) (Ls Rs : List Chunk)
+    (hlen : ∀ l ∈ flat Ls, l.length = nL)
+    (hk : KeysComparable lk rk (flat Ls) (flat Rs)) :
+    flat (hashSemiJoin false lk rk Ls Rs) =
+      semiJoin (equiOn nL lk rk (fun _ => some true)) (flat Ls) (flat Rs) := by
+  unfold hashSemiJoin semiJoin
+  rw [flat_map_filter]
+  apply List.filter_congr
+  intro l hl
+  rw [hash_semi_key lk rk nL _ _ hlen hk l hl]
+  simp
+
+theorem hash_anti_eq_spec_partial (lk rk : List (Row → Val)) (nL : Nat) (Ls Rs : List Chunk)
+    (hlen : ∀ l ∈ flat Ls, l.length = nL)
+    (hk : KeysComparable lk rk (flat Ls) (flat Rs)) :
+    flat (hashSemiJoin true lk rk Ls Rs) =
+      antiJoin (equiOn nL lk rk (fun _ => some true)) (flat Ls) (flat Rs) := by
+  unfold hashSemiJoin antiJoin
+  rw [flat_map_filter]
+  apply List.filter_congr
+  intro l hl
+  rw [hash_semi_key lk rk nL _ _ hlen hk l hl]
+  cases (matchesOf (equiOn nL lk rk fun _ => some true) l (flat Rs)).isEmpty <;> rfl
+
+
+/-! hash join (inner) -/
+
+def rowsOf (k : List Val) (m : List HEntry) : Option (List Row) := (hmLookup k m).map (·.rows)
+
+theorem rowsOf_mark (k k' : List Val) (m : List HEntry) : rowsOf k (hmMark k' m) = rowsOf k m := by
+  unfold rowsOf
+  induction m with
+  | nil => rfl
+  | cons e es ih =>
+    unfold hmMark
+    by_cases h1 : e.key == k'
+    · simp only [h1, if_true, hmLookup]
+      by_cases h2 : e.key == k <;> simp [h2]
+    · simp only [h1, Bool.false_eq_true, if_false, hmLookup]
+      by_cases h2 : e.key == k
+      · simp [h2]
+      · simp only [h2, Bool.false_eq_true, if_false]; exact ih
+
+theorem probe_out (pr : Bool) (rk : List (Row → Val)) (nL : Nat) (R : List Row) (m : List HEntry) :
+    (hjProbe pr rk nL R m).2 = R.flatMap (fun r =>
+      match rowsOf (keyOf rk r) m with
+      | some rows => rows.map (· ++ r)
+      | none => if pr then [nulls nL ++ r] else []) := by
+  induction R generalizing m with
+  | nil => rfl
+  | cons r rs ih =>
+    unfold hjProbe
+    simp only [List.flatMap_cons]
+    cases h : hmLookup (keyOf rk r) m with
+    | none =>
+      have hr : rowsOf (keyOf rk r) m = none := by simp [rowsOf, h]
+      simp only [hr]
+      rw [ih m]
+    | some e =>
+      have hr : rowsOf (keyOf rk r) m = some e.rows := by simp [rowsOf, h]
+      simp only [hr]
+      rw [ih (hmMark (keyOf rk r) m)]
+      congr 1
+      apply flatMap_congr'
+      intro r' _
+      rw [rowsOf_mark]
+
+theorem rowsOf_insert (k k' : List Val) (row : Row) (m : List HEntry) :
+    rowsOf k (hmInsert k' row m) =
+      if k' == k then some ((rowsOf k m).getD [] ++ [row]) else rowsOf k m := by
+  unfold rowsOf
+  induction m with
+  | nil =>
+    unfold hmInsert
+    by_cases h : k' == k <;> simp [hmLookup, h]
+  | cons e es ih =>
+    unfold hmInsert
+    by_cases h1 : e.key == k'
+    · have e1 : e.key = k' := eq_of_beq h1
+      simp only [h1, if_true, hmLookup]
+      by_cases h2 : k' == k
+      · have : (e.key == k) = true := by rw [e1]; exact h2
+        simp [this, h2]
+      · have : (e.key == k) = false := by rw [e1]; simpa using h2
+        simp [this, h2]
+    · simp only [h1, Bool.false_eq_true, if_false, hmLookup]
+      by_cases h2 : e.key == k
+      · have e2 : e.key = k := eq_of_beq h2
+        have : (k' == k) = false := by
+          rw [← e2]; cases h3 : k' == e.key
+          · rfl
+          · exact absurd (by rw [eq_of_beq h3]; exact BEq.rfl) h1
+        simp [h2, this]
+      · simp only [h2, Bool.false_eq_true, if_false]
+        exact ih
+
+theorem rowsOf_build_aux (lk : List (Row → Val)) (L1 L0 : List Row) (m : List HEntry) (k : List Val)
+    (hm : rowsOf k m = (if (L0.filter (fun l => keyOf lk l == k)).isEmpty then none else some (L0.filter (fun l => keyOf lk l == k)))) :
+    rowsOf k (L1.foldl (fun m l => hmInsert (keyOf lk l) l m) m) =
+      (if ((L0 ++ L1).filter (fun l => keyOf lk l == k)).isEmpty then none else some ((L0 ++ L1).filter (fun l => keyOf lk l == k))) := by
+  induction L1 generalizing L0 m with
+  | nil => simpa using hm
+  | cons l ls ih =>
+    simp only [List.foldl_cons]
+    have := ih (L0 ++ [l]) (hmInsert (keyOf lk l) l m) (by
+      rw [rowsOf_insert, hm, List.filter_append]
+      by_cases h : keyOf lk l == k
+      · simp only [h, if_true, List.filter_cons, List.filter_nil]
+        cases hf : (L0.filter (fun l => keyOf lk l == k)).isEmpty
+        · simp
+        · have : L0.filter (fun l => keyOf lk l == k) = [] := List.isEmpty_iff.mp hf
+          simp [this]
+      · simp [h])
+    simpa [List.append_assoc] using this
+
+theorem rowsOf_build (lk : List (Row → Val)) (L : List Row) (k : List Val) :
+    rowsOf k (hmBuild lk L) =
+      (if (L.filter (fun l => keyOf lk l == k)).isEmpty then none else some (L.filter (fun l => keyOf lk l == k))) := by
+  have := rowsOf_build_aux lk L [] [] k (by simp [rowsOf, hmLookup])
+  simpa [hmBuild] using this
+
+/-- what the inner hash join emits, before any hypothesis: the pairs with STRUCTURALLY equal keys. -/
+theorem hashjoin_inner_rows (lk rk : List (Row → Val)) (nL nR : Nat) (Ls Rs : List Chunk) :
+    (flat (hashJoin .inner lk rk nL nR Ls Rs)).Perm
+      ((flat Ls).flatMap (fun l => ((flat Rs).filter (fun r => keyOf lk l == keyOf rk r)).map (l ++ ·))) := by
+  unfold hashJoin
+  simp only [show (JoinType.inner == JoinType.rightOuter || JoinType.inner == JoinType.fullOuter) = false from rfl,
+    show (JoinType.inner == JoinType.leftOuter || JoinType.inner == JoinType.fullOuter) = false from rfl,
+    Bool.false_eq_true, if_false, List.append_nil]
+  rw [flat_emit, probe_out]
+  have h : ((flat Rs).flatMap (fun r =>
+      match rowsOf (keyOf rk r) (hmBuild lk (flat Ls)) with
+      | some rows => rows.map (· ++ r)
+      | none => if false = true then [nulls nL ++ r] else [])) =
+      (flat Rs).flatMap (fun r => ((flat Ls).filter (fun l => keyOf lk l == keyOf rk r)).map (fun l => l ++ r)) := by
+    apply flatMap_congr'
+    intro r _
+    rw [rowsOf_build]
+    cases hf : ((flat Ls).filter (fun l => keyOf lk l == keyOf rk r)).isEmpty
+    · simp
+    · have : (flat Ls).filter (fun l => keyOf lk l == keyOf rk r) = [] := List.isEmpty_iff.mp hf
+      simp [this]
+  rw [h]
+  exact cross_swap_perm2 (fun l r => l ++ r) (fun l r => keyOf lk l == keyOf rk r) (flat Ls) (flat Rs)
+
+/-- hash join = spec (= nested-loop join, `nl_eq_spec_inner`) under KeysComparable. -/
+theorem hash_eq_spec_inner_partial (lk rk : List (Row → Val)) (nL nR : Nat) (Ls Rs : List Chunk)
+    (hlen : ∀ l ∈ flat Ls, l.length = nL)
+    (hk : KeysComparable lk rk (flat Ls) (flat Rs)) :
+    (flat (hashJoin .inner lk rk nL nR Ls Rs)).Perm
+      (joinRel .inner (equiOn nL lk rk (fun _ => some true)) nL nR (flat Ls) (flat Rs)) := by
+  refine (hashjoin_inner_rows lk rk nL nR Ls Rs).trans (Perm.of_eq ?_)
+  unfold joinRel innerJoin matchesOf
+  apply flatMap_congr'
+  intro l hl
+  congr 1
+  apply List.filter_congr
+  intro r hr
+  rw [equiOn_split nL lk rk l r (hlen l hl)]
+  exact hk l hl r hr
+
+
 end RlModel
